@@ -52,6 +52,14 @@ pub struct Scenario {
     /// calls (both variants, every residue run), and scaling by a power of two must scale every component exactly
     #[serde(default)]
     pub inexact: bool,
+    /// with `inexact`: the function whose second and higher derivatives cancel analytically (what the code computes for
+    /// them is rounding residue without symmetry or pattern)
+    #[serde(default)]
+    pub cancel: bool,
+    /// the closure returns a number it builds by hand (any part present or absent independently of the others) instead
+    /// of computing one: the reference is what it built
+    #[serde(default)]
+    pub hand: bool,
 }
 
 impl Scenario {
@@ -65,6 +73,8 @@ impl Scenario {
         s.simple = false;
         s.scale_mode = 0;
         s.inexact = false;
+        s.cancel = false;
+        s.hand = false;
         if self.variant == 2 {
             match s.dim.as_str() {
                 "Dyn" => s.n += 1,
@@ -159,12 +169,12 @@ fn build_fx(sc: &Scenario) -> Fx {
     } else {
         (a, b)
     };
-    Fx { polys, a, b, ijk, scale: 0, style: r.next(), inexact }
+    Fx { polys, a, b, ijk, scale: 0, style: r.next(), inexact, cancel: sc.cancel, hand: sc.hand.then(|| mix(sc.seed, 0x4A4D)) }
 }
 
 /// the power of two the closure multiplies its result with (scale_mode), from the unscaled reference
 fn scale_for(sc: &Scenario, unscaled: &[Part]) -> i32 {
-    if sc.scale_mode == 0 {
+    if sc.scale_mode == 0 || sc.hand {
         return 0;
     }
     let mags: Vec<f64> = unscaled.iter().filter(|p| p.0 != SHAPE).flat_map(|p| [Some(p.0), p.1, p.2]).flatten().map(|b| f64::from_bits(b).abs()).filter(|v| *v > 0.0).collect();
@@ -353,8 +363,11 @@ pub fn run_case(case: &Case) -> Outcome {
     let reenter = matches!(case.plan, Plan::ReenterEarly | Plan::ReenterLate);
     let res = catch_unwind(AssertUnwindSafe(|| call(&sc.driver, &sc.scalar, &sc.dim, &fx, if reenter { Some(&fx_in) } else { None }, case.fallible, &ctx)));
     let calls = ctx.calls.get();
+    // hand-built results: the reference is what the closure put into the number it returned
+    let want = if sc.hand { ctx.built.borrow().clone().unwrap_or(want) } else { want };
     let mut out = Outcome {
-        kind: String::new(), calls, function: fx.polys.iter().map(|p| p.show()).collect::<Vec<_>>().join(" ; "),
+        kind: String::new(), calls,
+        function: if sc.hand { "(the closure returns a number built by hand with the type's `new`: the parts listed as reference; absent parts count as zeros)".to_string() } else { format!("{}{}", if sc.cancel { "[cancelling family of] " } else if sc.inexact { "[inexact family of] " } else { "" }, fx.polys.iter().map(|p| p.show()).collect::<Vec<_>>().join(" ; ")) },
         point: format!("a={:?} b={:?} ijk={:?} result scaled by 2^{}", fx.a, fx.b, fx.ijk, fx.scale), got: vec![], want: want.iter().map(show_part).collect(), violation: None,
     };
     let name = format!("{}{}", if case.fallible { "try_" } else { "" }, sc.driver);
@@ -362,7 +375,7 @@ pub fn run_case(case: &Case) -> Outcome {
         (Plan::None | Plan::ReenterEarly | Plan::ReenterLate, Ok(Ok(got))) => {
             out.kind = "ok".into();
             out.got = got.iter().map(show_part).collect();
-            let what = if sc.inexact { "the scenario's first fault-free result (scaled by the same power of two)" } else { "the exact value" };
+            let what = if sc.hand { "what the closure returned" } else if sc.inexact { "the scenario's first fault-free result (scaled by the same power of two)" } else { "the exact value" };
             if let Some(d) = first_difference_as(&got, &want, what) {
                 let why = if reenter { Class::Reentrancy } else { Class::WrongValue };
                 out.violation = Some((why, format!("{name}: {d}{}", if reenter { " - after the closure called the same driver again" } else { "" })));
@@ -471,8 +484,10 @@ fn cases_for_value(seed: u64, i: u64, thorough: bool) -> Vec<Case> {
     } else {
         [0, 0, 0]
     };
-    let sc = Scenario { driver: driver.into(), scalar: scalar.into(), dim: if two || matches!(driver, "gradient" | "hessian") { dim.into() } else { "-".into() }, n, m, seed: r.next(), simple: r.chance(40), ijk, variant: 0, scale_mode: [0, 0, 0, 0, 0, 0, 1, 1, 2, 0][r.below(10)], inexact: false };
-    let sc = if r.chance(250) { Scenario { inexact: true, simple: false, scale_mode: [0, 1, 1][r.below(3)], ..sc } } else { sc };
+    let sc = Scenario { driver: driver.into(), scalar: scalar.into(), dim: if two || matches!(driver, "gradient" | "hessian") { dim.into() } else { "-".into() }, n, m, seed: r.next(), simple: r.chance(40), ijk, variant: 0, scale_mode: [0, 0, 0, 0, 0, 0, 1, 1, 2, 0][r.below(10)], inexact: false, cancel: false, hand: false };
+    let sc = if r.chance(250) { Scenario { inexact: true, cancel: r.chance(350), simple: false, scale_mode: [0, 1, 1][r.below(3)], ..sc } } else { sc };
+    // one scenario in eight: the closure returns a hand-built number
+    let sc = if !sc.inexact && r.chance(125) { Scenario { hand: true, scale_mode: 0, ..sc } } else { sc };
     let mut cases = vec![];
     for fallible in [false, true] {
         cases.push(Case { sc: sc.clone(), fallible, plan: Plan::None });
@@ -932,7 +947,7 @@ fn main() {
     let wall = t0.elapsed().as_secs_f64();
     let rule = "one case = one call of one of the twenty drivers of the real crate (driver x {f64, f32, nested Dual64, nested DualDVec64 with possibly absent inner parts} x static / dynamic / mixed dimensions x seeded integer polynomial(s) x seeded dyadic point) with a closure \
 whose behaviour the simulator decides; per scenario, in this order on one thread: the infallible and the try_ variant fault-free, then EVERY plan of the table (closure returns Err before / after evaluating [try_ only], panics before / after evaluating, \
-calls the same driver again before / after evaluating), each followed by three fault-free calls (a companion scenario with other function, point and indices; one with other dynamic dimensions; the scenario itself). One scenario in four uses the inexact family (products, quotients, sin, exp at non-dyadic points: reference = the first fault-free call of the scenario; scaling by a power of two must be exact). One scenario in three scales its results by a power of two into the top or bottom binade of the float type. Every component of every result is compared bit for bit with exact symbolic derivatives. distinct_nontrivial = distinct \
+calls the same driver again before / after evaluating), each followed by three fault-free calls (a companion scenario with other function, point and indices; one with other dynamic dimensions; the scenario itself). One scenario in four uses the inexact family (products, quotients, sin, exp at non-dyadic points: reference = the first fault-free call of the scenario; scaling by a power of two must be exact). A third of those use the cancelling family (a linear form plus terms that are identically zero but evaluated in two orders: every higher derivative is rounding residue without symmetry). One exact scenario in eight has the closure return a number it builds by hand with the type's constructor, every derivative part present or absent independently of the others (reference: what it built, absent parts as zeros). One scenario in three scales its results by a power of two into the top or bottom binade of the float type. Every component of every result is compared bit for bit with exact symbolic derivatives. distinct_nontrivial = distinct \
 (driver, variant, type configuration, dimensions, function/point seed, plan, outcome kind, closure invocations) among cases with a plan other than none";
     let ev = serde_json::json!({
         "property_id": "C05",
@@ -959,7 +974,7 @@ calls the same driver again before / after evaluating), each followed by three f
             "determinism_check": { "scenarios": det_values, "cases": d1.cases, "thread_partitions": [threads, 3], "digest_equal": deterministic, "digest": format!("{:016x}", d1.digest) },
             "real_components": ["the twenty driver functions (seeding, extraction, transposes)", "all dual arithmetic the closure performs (DualVec, Dual2Vec, HyperDualVec, Dual, Dual2, Dual3, HyperDual, HyperHyperDual over f64, f32 and Dual64)", "nalgebra static and dynamic storage"],
             "stubbed_components": ["the user closure's behaviour besides computing: returning an error, panicking, re-entering the driver - and when"],
-            "invariants": ["K1 every component equals the exact reference in the documented position and orientation", "K2 try_ variants with a succeeding closure return what the infallible variants return", "K3 an Err of the closure comes back as that very error", "K4 a panic of the closure arrives with its payload and leaves nothing behind", "K5 a nested call of the same driver changes neither result", "K6 the closure is invoked exactly once", "K7 (inexact family) multiplying the function by a power of two multiplies every component of the result by it, exactly, up to the top of the float range"],
+            "invariants": ["K1 every component equals the exact reference in the documented position and orientation", "K2 try_ variants with a succeeding closure return what the infallible variants return", "K3 an Err of the closure comes back as that very error", "K4 a panic of the closure arrives with its payload and leaves nothing behind", "K5 a nested call of the same driver changes neither result", "K6 the closure is invoked exactly once", "K8 a result the closure builds by hand comes back part for part, whatever combination of its derivative parts is present", "K7 (inexact family) multiplying the function by a power of two multiplies every component of the result by it, exactly, up to the top of the float range"],
             "known_findings_hit": known_hits,
             "unlisted_finding_keys": unknown_keys,
             "fault_table_enumerated_completely_per_scenario": true,
